@@ -98,9 +98,27 @@ def parse_callee(text):
         segs = [s for s in flat.split('::') if s and s != "'_"]
         c.method = segs[-1]
         c.segs = segs[:-1]
-        gi = t.rfind('::<')
-        if gi != -1 and t.endswith('>') and match_close(t, gi + 2) == len(t) - 1:
-            c.generics = t[gi:]
+        if t.endswith('>'):
+            # the turbofish of the last path segment: a top-level `::<` whose bracket closes at the very end
+            depth = 0
+            i = 0
+            n = len(t)
+            while i < n:
+                ch = t[i]
+                if depth == 0 and t.startswith('::<', i):
+                    try:
+                        if match_close(t, i + 2) == n - 1:
+                            c.generics = t[i:]
+                            break
+                    except ValueError:
+                        pass
+                if ch in '<([{':
+                    depth += 1
+                elif ch in ')]}':
+                    depth -= 1
+                elif ch == '>' and not (i > 0 and t[i - 1] in '-='):
+                    depth -= 1
+                i += 1
     _cache[text] = c
     return c
 
